@@ -335,7 +335,8 @@ fn builtin_char(args: Vec<Rc<Object>>) -> Result<Rc<Object>, String> {
             }
         }
         Object::Integer(s) => {
-            if let Some(c) = std::char::from_u32(*s as u32) {
+            // (the range is checked before the value is narrowed to 32 bits)
+            if let Some(c) = u32::try_from(*s).ok().and_then(std::char::from_u32) {
                 Ok(Rc::new(Object::Char(c)))
             } else {
                 // failed to parse integer
@@ -375,8 +376,9 @@ fn builtin_byte(args: Vec<Rc<Object>>) -> Result<Rc<Object>, String> {
             }
         }
         Object::Integer(s) => {
-            if let Some(b) = std::char::from_u32(*s as u32) {
-                Ok(Rc::new(Object::Byte(b as u8)))
+            // a byte is an integer in 0..=255; anything else converts to null
+            if let Ok(b) = u8::try_from(*s) {
+                Ok(Rc::new(Object::Byte(b)))
             } else {
                 // failed to parse integer
                 Ok(Rc::new(Object::Null))
